@@ -4,6 +4,9 @@ import Pyunicorn.Lemmas.RelabelNet
 import Pyunicorn.Lemmas.RelabelCross
 import Pyunicorn.Lemmas.RelabelCircuit
 import Pyunicorn.Lemmas.RelabelGeoRec
+import Pyunicorn.Lemmas.RelabelR4
+import Pyunicorn.Lemmas.RelabelRec4
+import Pyunicorn.Lemmas.RelabelAssort
 import Mathlib.Algebra.BigOperators.Group.List.Basic
 import Mathlib.Data.List.Nodup
 /-!
@@ -361,6 +364,21 @@ theorem net_coreness_entry (h : IsPerm n idx) (a : Adj) (directed : Bool) (v : N
     (coreness n (mat a idx) directed).getD v 0 = (coreness n a directed).getD (idx v) 0 := by
   rw [coreness_relabel h a directed, nodeList_getD n idx 0 _ v hv]
 
+/-- **assortativity** (round 4; was oracle-only): the Python loop over `graph.get_edgelist()` with
+its three accumulators and both `ZeroDivisionError` branches returns the same value (or raises
+alike) on the renumbered network, although its edge list holds the links in another order and — on
+undirected networks (symmetric adjacency matrix) — in other orientations.  `sum_edgeList_relabel`:
+every sum of a symmetric summand over the edge list is numbering independent. -/
+theorem net_assortativity_relabel (h : IsPerm n idx) (directed : Bool) (a : Adj)
+    (hsym : directed = false → ∀ i j, a i j = a j i) :
+    assortativity directed n (mat a idx) = assortativity directed n a ∧
+    (edgeList directed n (mat a idx)).length = (edgeList directed n a).length := by
+  refine ⟨assortativity_relabel h directed a hsym, ?_⟩
+  have := sum_edgeList_relabel h directed a hsym (fun _ _ => 1) (fun _ _ => 1) (fun _ _ => rfl)
+    (fun _ _ _ _ => rfl)
+  rw [sum_ones, sum_ones] at this
+  exact_mod_cast this
+
 /-! ## C11 model: cross / internal measures, node lists renumbered with the network -/
 open Pyunicorn.Cross
 
@@ -411,6 +429,27 @@ theorem cross_clustering_relabel (h : IsPerm n idx) (directed : Bool) (A : Cross
   refine ⟨?_, ?_, ?_, ?_, internalGlobalClustering_relabel h A L1 h1⟩ <;>
   simp only [ctCounts_nat, crossTransitivity_nat, crossLocalClustering_nat,
     crossGlobalClustering_nat, e1, e2]
+
+/-- **the `_sparse` twins** `cross_transitivity_sparse`, `cross_local_clustering_sparse`,
+`cross_global_clustering_sparse` (Python triple loops over *positions* of the concatenated list
+`node_list1 + node_list2`, gated by the cross degree at the position — the two sites seeded change
+C04-2 set against each other): on the renumbered network with the renumbered lists they return the
+old results (round 4; C11's `ctSparse_eq_dense` / `clcSparse_eq_dense` relate them to the compiled
+kernels, this is their equivariance in its own right) -/
+theorem cross_sparse_relabel (h : IsPerm n idx) (directed : Bool) (A : Cross.Adj)
+    (L1 L2 : List Nat) (h1 : ∀ k ∈ L1, k < n) (h2 : ∀ k ∈ L2, k < n) :
+    let P1 := nodes n idx L1; let P2 := nodes n idx L2
+    ctSparseCounts (crossDegree directed (mat A idx) P1 P2) (mat A idx) P1 P2
+      = ctSparseCounts (crossDegree directed A L1 L2) A L1 L2 ∧
+    crossTransitivitySparse directed (mat A idx) P1 P2 = crossTransitivitySparse directed A L1 L2 ∧
+    clcSparse directed (mat A idx) P1 P2 = clcSparse directed A L1 L2 ∧
+    crossGlobalClusteringSparse directed (mat A idx) P1 P2
+      = crossGlobalClusteringSparse directed A L1 L2 := by
+  intro P1 P2
+  have e1 : P1.map idx = L1 := nodes_map_idx h L1 h1
+  have e2 : P2.map idx = L2 := nodes_map_idx h L2 h2
+  simp only [ctSparseCounts_nat, crossDegree_nat, crossTransitivitySparse_nat, clcSparse_nat,
+    crossGlobalClusteringSparse_nat, e1, e2, and_self]
 
 /-- **path-length based cross / internal measures** of a distance matrix carried with the nodes
 (`cross_average_path_length`, `internal_average_path_length`, `cross_closeness`,
@@ -520,14 +559,78 @@ theorem res_admittive_relabel (h : IsPerm n idx) (adj : Circuit.Adj) (adm : Mat)
 `_edge_current_flow_betweenness_fast`: `for t in range(N): for s in range(t)` with the `continue`
 for `i ∈ {s, t}`, unit currents): for an inverse `R'` of the renumbered network that is the
 renumbered old one on the nodes (`res_inverse_relabel`: it satisfies the same defining equations)
-the vertex values are permuted and the edge values permuted on both axes.  *Partial* in that the
-uniqueness of the Moore–Penrose inverse (so that `update_R` must have stored this `R'`) is not
-proved here; the effective resistances (`res_effRes_relabel`) need no such hypothesis. -/
+the vertex values are permuted and the edge values permuted on both axes.  Round 4:
+`res_currentflow_relabel_pinv` below removes the hypothesis `hR`. -/
 theorem res_currentflow_relabel (h : IsPerm n idx) (adm R R' : Mat)
     (hR : ∀ a b, a < n → b < n → R' a b = R (idx a) (idx b)) (i j : Nat) (hi : i < n) (hj : j < n) :
     vcfbKernel n 1 1 (mat adm idx) R' i = vcfbKernel n 1 1 adm R (idx i) ∧
     ecfbKernel n 1 1 (mat adm idx) R' i j = ecfbKernel n 1 1 adm R (idx i) (idx j) :=
   ⟨vcfb_relabel h adm R R' hR i hi, ecfb_relabel h adm R R' hR i j hi hj⟩
+
+/-- **current-flow betweenness, unconditionally** (round 4; replaces the hypothesis of
+`res_currentflow_relabel` that the stored inverse of the renumbered network *is* the renumbered
+one): on every connected resistor network, for *whatever* matrices satisfying the first and
+third Moore–Penrose equations `update_R` stored for the two numberings, the vertex values are
+permuted and the edge values permuted on both axes.  (The kernels read `R` only through
+differences within a column; two such inverses differ by a constant per column —
+`proj_of_pinv13`, `lap_ker_const` of C18 — so uniqueness of the Moore–Penrose inverse is not
+needed.) -/
+theorem res_currentflow_relabel_pinv (h : IsPerm n idx) (adj : Circuit.Adj) (res R R' : Mat)
+    (hN : IsNetwork n adj res) (hconn : CutConnected n (admittance adj res))
+    (hR : IsPinv13 n (Circuit.laplacian n (admittance adj res)) R)
+    (hR' : IsPinv13 n (Circuit.laplacian n (admittance (mat adj idx) (mat res idx))) R')
+    (i j : Nat) (hi : i < n) (hj : j < n) :
+    vcfbKernel n 1 1 (admittance (mat adj idx) (mat res idx)) R' i
+      = vcfbKernel n 1 1 (admittance adj res) R (idx i) ∧
+    ecfbKernel n 1 1 (admittance (mat adj idx) (mat res idx)) R' i j
+      = ecfbKernel n 1 1 (admittance adj res) R (idx i) (idx j) :=
+  currentflow_relabel_pinv h adj res R R' hN hconn hR hR' i j hi hj
+
+/-- **`diameter_effective_resistance()`** (`np.max` of the hand-rolled triangular store
+`for i: for j in range(i)`; `none` = ValueError on the empty store): unchanged, for whatever
+generalised inverses are stored (round 4; the unordered pairs are stored in another order and
+orientation after renumbering) -/
+theorem res_diameter_relabel (h : IsPerm n idx) (adj : Circuit.Adj) (res R R' : Mat)
+    (hN : IsNetwork n adj res) (hconn : CutConnected n (admittance adj res))
+    (hg : IsGinv n (Circuit.laplacian n (admittance adj res)) R)
+    (hg' : IsGinv n (Circuit.laplacian n (admittance (mat adj idx) (mat res idx))) R') :
+    maxOf (allPairs n R') = maxOf (allPairs n R) :=
+  diameterER_relabel h R R' fun a b ha hb =>
+    effRes_relabel h adj res R R' a b ha hb hN hconn hg hg'
+
+/-! ## C05 model: link attributes set after construction, links listed in any order -/
+
+/-- **`set_link_attribute` then `link_attribute` on a twin whose embedded graph lists the links
+in any order** (round 4, seeded change C04-6).  `net` is any `Network` object, `net'` any object
+of the same directedness whose embedded graph object describes the renumbered links — in
+*whatever* order and (undirected) orientation `FromIGraph` / `Load` / an edge list handed them
+over (`hrel` compares the link *relations* only).  After `set_link_attribute(name, V)` resp.
+`set_link_attribute(name, V[idx][:, idx])` (symmetric on undirected networks, as documented)
+`link_attribute(name)` of the twin is the renumbered matrix: the per-edge loops
+`for e in graph.es: e[name] = values[e.tuple]` and `weights[e.tuple] = e[name]` never use the
+position of a link in the edge sequence. -/
+theorem linkattr_relabel (net net' : Repr.Net) (V : Nat → Nat → Rat)
+    (hd : net'.directed = net.directed)
+    (hrel : ∀ i j, i < n → j < n →
+      Repr.rel net'.directed net'.graph i j = Repr.rel net.directed net.graph (idx i) (idx j))
+    (hV : net.directed = false → ∀ i j, V j i = V i j) :
+    ∃ f f', Repr.linkAttr (Repr.setLinkAttr net V) = some f ∧
+      Repr.linkAttr (Repr.setLinkAttr net' (mat V idx)) = some f' ∧
+      ∀ i j, i < n → j < n → f' i j = f (idx i) (idx j) :=
+  linkAttr_relabel net net' V hd hrel hV
+
+/-- the instance `idx = id`: **the order in which the embedded graph lists the links does not
+matter** — two objects describing the same links return the same attribute matrix -/
+theorem linkattr_order_independent (net net' : Repr.Net) (V : Nat → Nat → Rat)
+    (hd : net'.directed = net.directed)
+    (hrel : ∀ i j, Repr.rel net'.directed net'.graph i j = Repr.rel net.directed net.graph i j)
+    (hV : net.directed = false → ∀ i j, V j i = V i j) :
+    ∃ f f', Repr.linkAttr (Repr.setLinkAttr net V) = some f ∧
+      Repr.linkAttr (Repr.setLinkAttr net' V) = some f' ∧ ∀ i j, f' i j = f i j := by
+  obtain ⟨f, hf, hfs⟩ := Repr.linkAttr_setLinkAttr_gen net V (fun hd' i j _ => hV hd' i j)
+  obtain ⟨f', hf', hfs'⟩ := Repr.linkAttr_setLinkAttr_gen net' V
+    (fun hd' i j _ => hV (hd ▸ hd') i j)
+  exact ⟨f, f', hf, hf', fun i j => by rw [hfs', hfs, hrel i j]⟩
 
 /-! ## C12 model over `Rat`: grids and link-distance measures -/
 open Pyunicorn.Geo
@@ -583,6 +686,62 @@ theorem rec_fixedThreshold_relabel (h : IsPerm n idx) (m : Metric) (emb : List (
   ⟨distRP_relabel h m emb hn a b ha hb, fixedThreshold_relabel h m emb hn eps mv a b ha hb,
    recurrenceAdjacency_relabel h m emb hn eps mv a b ha hb⟩
 
+/-- **fixed recurrence rate** (`set_fixed_recurrence_rate`, C07's `fixedRate`: the threshold is the
+`k`-th order statistic of the sorted flattened distance matrix, `none` = IndexError): the
+threshold does not depend on the order of the state vectors and the recurrence matrix of the
+reordered trajectory is the renumbered one (round 4) -/
+theorem rec_fixedRate_relabel (h : IsPerm n idx) (m : Metric) (emb : List (List V))
+    (hn : emb.length = n) (k : Nat) (a b : Nat) (ha : a < n) (hb : b < n) :
+    quantileAt (distRP m (rows n idx emb)).flatten k = quantileAt (distRP m emb).flatten k ∧
+    (fixedRate (distRP m (rows n idx emb)) k).map (fun R => entry R a b)
+      = (fixedRate (distRP m emb) k).map (fun R => entry R (idx a) (idx b)) :=
+  ⟨quantile_distRP_relabel h m emb hn k, fixedRate_relabel h m emb hn k a b ha hb⟩
+
+/-- **fixed local recurrence rate** (`set_fixed_local_recurrence_rate`, C07's `fixedLocalRate`: one
+order statistic per row; the network is directed): both constructions succeed or raise together,
+and the recurrence matrix of the reordered trajectory is the renumbered one (round 4) -/
+theorem rec_localRate_relabel (h : IsPerm n idx) (m : Metric) (emb : List (List V))
+    (hn : emb.length = n) (k : Nat) :
+    ((fixedLocalRate (distRP m (rows n idx emb)) k).isSome
+      = (fixedLocalRate (distRP m emb) k).isSome) ∧
+    ∀ R R', fixedLocalRate (distRP m emb) k = some R →
+      fixedLocalRate (distRP m (rows n idx emb)) k = some R' →
+      ∀ a b, a < n → b < n → entry R' a b = entry R (idx a) (idx b) :=
+  fixedLocalRate_relabel h m emb hn k
+
+/-- **joint recurrence matrix at lag 0** (`JointRecurrencePlot`: `R = Rx * Ry`, C07's `hadamard`)
+of two trajectories reordered by the same permutation (round 4).  The slicing for non-zero lags
+depends on the time order and is exempt. -/
+theorem rec_joint_relabel (h : IsPerm n idx) (mx my : Metric) (ex ey : List (List V))
+    (hnx : ex.length = n) (hny : ey.length = n) (epsx epsy : Rat) (mv : Bool) (a b : Nat)
+    (ha : a < n) (hb : b < n) :
+    (hadamard (fixedThreshold mx (rows n idx ex) epsx mv)
+        (fixedThreshold my (rows n idx ey) epsy mv)).bind (fun R => entry R a b)
+      = (hadamard (fixedThreshold mx ex epsx mv) (fixedThreshold my ey epsy mv)).bind
+          (fun R => entry R (idx a) (idx b)) :=
+  hadamard_relabel _ _ _ _ (fixedThreshold_square mx ex hnx epsx mv)
+    (fixedThreshold_square mx _ (rows_length ex) epsx mv) (fixedThreshold_square my ey hny epsy mv)
+    (fixedThreshold_square my _ (rows_length ey) epsy mv) a b
+    (fixedThreshold_relabel h mx ex hnx epsx mv a b ha hb)
+    (fixedThreshold_relabel h my ey hny epsy mv a b ha hb)
+
+/-- **inter-system recurrence matrix** (C07's `isrm`: blocks `Rx`, `CR`, `CRᵀ`, `Ry`) of two
+systems reordered *separately* by `idx` and `idy`: `joinPerm` is a permutation of the `Nx + Ny`
+nodes and the assembled matrix is the original one renumbered by it (round 4) -/
+theorem rec_intersystem_relabel {Nx Ny : Nat} {idy : Nat → Nat} (hx : IsPerm Nx idx)
+    (hy : IsPerm Ny idy) (m : Metric) (ex ey : List (List V)) (hnx : ex.length = Nx)
+    (hny : ey.length = Ny) (epsx epsy : Rat) (t : V) (mv : Bool) (M M' : List (List Bool))
+    (hM : isrm Nx Ny (fixedThreshold m ex epsx mv) (fixedThreshold m ey epsy mv)
+      (threshold (distCRP m ex ey) t) = some M)
+    (hM' : isrm Nx Ny (fixedThreshold m (rows Nx idx ex) epsx mv)
+      (fixedThreshold m (rows Ny idy ey) epsy mv)
+      (threshold (distCRP m (rows Nx idx ex) (rows Ny idy ey)) t) = some M') :
+    IsPerm (Nx + Ny) (joinPerm Nx idx idy) ∧
+    ∀ a b, a < Nx + Ny → b < Nx + Ny →
+      entry M' a b = entry M (joinPerm Nx idx idy a) (joinPerm Nx idx idy b) :=
+  ⟨joinPerm_isPerm hx hy, fun a b ha hb =>
+    intersystem_relabel hx hy m ex ey hnx hny epsx epsy t mv M M' hM hM' a b ha hb⟩
+
 /-! ### non-vacuity -/
 
 def exPerm : Nat → Nat := fun a => [2, 0, 3, 1].getD a a
@@ -602,8 +761,27 @@ example : coreness 4 exAdj false = [1, 1, 1, 0] ∧
     coreness 4 (mat exAdj exPerm) false = [1, 1, 0, 1] ∧
     dist 4 (mat exAdj exPerm) 0 3 = some 1 ∧ dist 4 exAdj 2 1 = some 1 ∧
     dist 4 (mat exAdj exPerm) 0 2 = none := by decide +kernel
+example : edgeList false 4 exAdj = [(0, 1), (1, 2)] ∧
+    edgeList false 4 (mat exAdj exPerm) = [(0, 3), (1, 3)] ∧
+    assortativity false 4 exAdj = some (-1) := by decide +kernel
 example : nodes 4 exPerm [0, 3] = [1, 2] ∧ (nodes 4 exPerm [0, 3]).map exPerm = [0, 3] := by
   decide +kernel
+/-- links of the path 0 — 1 — 2 listed in two different orders / orientations -/
+def exNetA : Repr.Net := { Repr.Net.blank false 3 with graph := [(0, 1), (1, 2)] }
+def exNetB : Repr.Net := { Repr.Net.blank false 3 with graph := [(2, 1), (1, 0)] }
+example : ∀ i j, Repr.rel exNetB.directed exNetB.graph i j = Repr.rel exNetA.directed exNetA.graph i j := by
+  intro i j; rw [Bool.eq_iff_iff]; simp [Repr.rel, exNetA, exNetB, Repr.Net.blank]; omega
+example : (Repr.setLinkAttr exNetA fun i j => (i + j : Nat)).eattr = some [1, 3] ∧
+    (Repr.setLinkAttr exNetB fun i j => (i + j : Nat)).eattr = some [3, 1] := by decide +kernel
+example : Cross.clcSparse false (mat exAdj exPerm) (nodes 4 exPerm [1]) (nodes 4 exPerm [0, 2])
+    = Cross.clcSparse false exAdj [1] [0, 2] := by decide +kernel
+example : joinPerm 2 exPerm (fun a => [1, 0].getD a a) 3 = 2 ∧ joinPerm 2 exPerm id 0 = 2 := by
+  decide +kernel
+example : IsPerm 3 (fun a => [2, 0, 1].getD a a) ∧
+    ([[some 0], [some 1], [some 3]] : List (List V)).length = 3 ∧
+    rows 3 (fun a => [2, 0, 1].getD a a) ([[some 0], [some 1], [some 3]] : List (List V))
+      = [[some 3], [some 0], [some 1]] := by
+  refine ⟨by unfold IsPerm; decide, rfl, by decide⟩
 example : IsNetwork 3 (fun i j => i != j) (fun _ _ => 1) :=
   ⟨fun i j _ _ => by simp [bne_comm], fun _ _ _ _ => rfl, fun _ _ _ _ _ => by norm_num⟩
 
